@@ -3,23 +3,12 @@ import PraatModel.Props.C11
 /-!
 # C10 — tier set operations obey the algebra of labelled time
 
-Exact arithmetic.  The separation hypothesis is stated once for the set `T` of all boundary times involved:
-distinct times of `T` are not equal under the code's 1e-9 tolerance (`SepTimes`), so that every intermediate tier of
-the folds satisfies `NoClose`.
+Exact arithmetic.  No separation hypothesis on the boundary times: the only tolerant comparison on the paths of
+these operations is the fallback of `deleteEntry`, which is never reached because the folds of `union` and
+`difference` only delete members of the tier (`deleteIvs_of_mem`); `intersection`, `mergeLabels` and the re-join of
+`eraseRegion` compare times exactly.
 -/
 namespace C10
-
-def SepTimes (T : List Int) : Prop := ∀ x ∈ T, ∀ y ∈ T, Tm.close9 x y = true → x = y
-def TimesIn (T : List Int) (es : List (Iv Int)) : Prop := ∀ iv ∈ es, iv.s ∈ T ∧ iv.e ∈ T
-
-theorem noclose_of_sep (T : List Int) (hT : SepTimes T) (es : List (Iv Int)) (h : TimesIn T es) : NoClose es := by
-  intro a ha b hb hab
-  simp only [ivEq, Bool.and_eq_true, beq_iff_eq] at hab
-  obtain ⟨⟨h1, h2⟩, h3⟩ := hab
-  have e1 := hT a.s (h a ha).1 b.s (h b hb).1 h1
-  have e2 := hT a.e (h a ha).2 b.e (h b hb).2 h2
-  obtain ⟨s, e, l⟩ := a; obtain ⟨s', e', l'⟩ := b
-  simp_all
 
 theorem covers_iff_labelAt (es : List (Iv Int)) (x : Int) : covers es x ↔ labelAt es x ≠ none := by
   rw [Ne, labelAt_none_iff]
@@ -34,41 +23,20 @@ theorem covers_iff_labelAt (es : List (Iv Int)) (x : Int) : covers es x ↔ labe
 
 /-! ## difference -/
 
-theorem pieces_times (a b : Int) (mode : EraseMode) (iv x : Iv Int) (hx : x ∈ pieces a b mode iv) :
-    (x.s = iv.s ∨ x.s = b) ∧ (x.e = iv.e ∨ x.e = a) := by
-  unfold pieces at hx
-  split at hx
-  · split at hx
-    · simp only [List.mem_append] at hx
-      rcases hx with hx | hx <;> split at hx <;> simp only [List.mem_singleton, List.not_mem_nil] at hx
-      · subst hx; simp
-      · subst hx; simp
-    · simp at hx
-  · simp only [List.mem_singleton] at hx; subst hx; simp
-
 /-- the fold of `difference`: erasing (truncate, no shrink) the regions `bs` one after the other -/
-theorem diff_fold (T : List Int) (hT : SepTimes T) (bs : List (Iv Int))
-    (hbs : ∀ b ∈ bs, b.s < b.e ∧ b.s ∈ T ∧ b.e ∈ T) (acc : ITier Int) (hacc : acc.WF) (hTa : TimesIn T acc.es) :
-    ∃ R, bs.foldlM (fun acc e => acc.eraseRegion e.s e.e .truncate false) acc = .ok R ∧ R.WF ∧ TimesIn T R.es ∧
+theorem diff_fold (bs : List (Iv Int)) (hbs : ∀ b ∈ bs, b.s < b.e) (acc : ITier Int) (hacc : acc.WF) :
+    ∃ R, bs.foldlM (fun acc e => acc.eraseRegion e.s e.e .truncate false) acc = .ok R ∧ R.WF ∧
       R.name = acc.name ∧ R.lo = acc.lo ∧ R.hi = acc.hi ∧
       ∀ x, (covers bs x → labelAt R.es x = none) ∧ (¬ covers bs x → labelAt R.es x = labelAt acc.es x) := by
   induction bs generalizing acc with
   | nil =>
-    refine ⟨acc, rfl, hacc, hTa, rfl, rfl, rfl, ?_⟩
+    refine ⟨acc, rfl, hacc, rfl, rfl, rfl, ?_⟩
     intro x; exact ⟨fun h => by simp [covers] at h, fun _ => rfl⟩
   | cons b bs ih =>
-    obtain ⟨hb1, hb2, hb3⟩ := hbs b (by simp)
-    obtain ⟨acc', e1, h1⟩ := C07.erase_noshrink acc hacc (noclose_of_sep T hT acc.es hTa) b.s b.e hb1 .truncate (by decide)
-    have hT' : TimesIn T acc'.es := by
-      intro y hy
-      obtain ⟨iv, hiv, hyp⟩ := (h1.mem y).1 hy
-      have := pieces_times b.s b.e .truncate iv y hyp
-      have := hTa iv hiv
-      constructor
-      · rcases ‹(y.s = iv.s ∨ y.s = b.e) ∧ _›.1 with h | h <;> rw [h] <;> first | exact this.1 | exact hb3
-      · rcases ‹(y.s = iv.s ∨ y.s = b.e) ∧ (y.e = iv.e ∨ y.e = b.s)›.2 with h | h <;> rw [h] <;> first | exact this.2 | exact hb2
-    obtain ⟨R, e2, w, tR, n, l, hh, hlab⟩ := ih (fun c hc => hbs c (List.mem_cons_of_mem _ hc)) acc' h1.wf hT'
-    refine ⟨R, ?_, w, tR, by rw [n, h1.name], by rw [l, h1.lo], by rw [hh, h1.hi], ?_⟩
+    have hb1 := hbs b (by simp)
+    obtain ⟨acc', e1, h1⟩ := C07.erase_noshrink acc hacc b.s b.e hb1 .truncate (by decide)
+    obtain ⟨R, e2, w, n, l, hh, hlab⟩ := ih (fun c hc => hbs c (List.mem_cons_of_mem _ hc)) acc' h1.wf
+    refine ⟨R, ?_, w, by rw [n, h1.name], by rw [l, h1.lo], by rw [hh, h1.hi], ?_⟩
     · simp only [List.foldlM_cons, e1, bind, Except.bind]; exact e2
     · intro x
       have hl1 := C07.isErased_labelAt acc acc' hacc b.s b.e hb1 h1 x
@@ -87,12 +55,10 @@ theorem diff_fold (T : List Int) (hT : SepTimes T) (bs : List (Iv Int))
         rw [(hlab x).2 h2', hl1]; simp [h1']
 
 /-- **difference**: labelled exactly where `A` is and `B` is not, with `A`'s labels; name and span of `A` -/
-theorem difference_spec (A B : ITier Int) (hA : A.WF) (hB : B.WF) (T : List Int) (hT : SepTimes T)
-    (hTA : TimesIn T A.es) (hTB : TimesIn T B.es) :
+theorem difference_spec (A B : ITier Int) (hA : A.WF) (hB : B.WF) :
     ∃ R, A.difference B = .ok R ∧ R.WF ∧ R.name = A.name ∧ R.lo = A.lo ∧ R.hi = A.hi ∧
       ∀ x, (covers B.es x → labelAt R.es x = none) ∧ (¬ covers B.es x → labelAt R.es x = labelAt A.es x) := by
-  obtain ⟨R, e, w, _, n, l, h, hl⟩ := diff_fold T hT B.es
-    (fun b hb => ⟨hB.pos b hb, (hTB b hb).1, (hTB b hb).2⟩) A hA hTA
+  obtain ⟨R, e, w, n, l, h, hl⟩ := diff_fold B.es (fun b hb => hB.pos b hb) A hA
   refine ⟨R, ?_, w, n, l, h, hl⟩
   unfold ITier.difference
   rw [new_of_wf A hA]
@@ -272,11 +238,10 @@ theorem intersection_labelAt (A B R : ITier Int) (hA : A.WF) (hB : B.WF) (h : A.
     exact ⟨_, (hm _).2 ⟨a, ha, b, hb, by omega, rfl⟩, by simp only; omega, by simp only; omega, rfl⟩
 
 /-- **partition**: difference and intersection split `A`'s labelled time, and never overlap -/
-theorem partition (A B D I : ITier Int) (hA : A.WF) (hB : B.WF) (T : List Int) (hT : SepTimes T)
-    (hTA : TimesIn T A.es) (hTB : TimesIn T B.es)
+theorem partition (A B D I : ITier Int) (hA : A.WF) (hB : B.WF)
     (hD : A.difference B = .ok D) (hI : A.intersection B = .ok I) (x : Int) :
     (covers A.es x ↔ (covers D.es x ∨ covers I.es x)) ∧ ¬ (covers D.es x ∧ covers I.es x) := by
-  obtain ⟨D', e, _, _, _, _, hl⟩ := difference_spec A B hA hB T hT hTA hTB
+  obtain ⟨D', e, _, _, _, _, hl⟩ := difference_spec A B hA hB
   rw [hD] at e; cases e
   have hi := intersection_labelAt A B I hA hB hI x
   simp only [covers_iff_labelAt]
@@ -311,24 +276,19 @@ theorem partition (A B D I : ITier Int) (hA : A.WF) (hB : B.WF) (T : List Int) (
 /-! ## union -/
 
 /-- one step of the union fold: inserting `e` with `merge` -/
-theorem union_step (T : List Int) (hT : SepTimes T) (acc : ITier Int) (hacc : acc.WF) (hTa : TimesIn T acc.es)
-    (e : Iv Int) (he : e.s < e.e) (hes : pyStrip e.l = e.l) (heT : e.s ∈ T ∧ e.e ∈ T) :
-    ∃ acc', acc.insertEntry e .merge = .ok acc' ∧ acc'.WF ∧ TimesIn T acc'.es ∧ acc'.name = acc.name ∧
+theorem union_step (acc : ITier Int) (hacc : acc.WF)
+    (e : Iv Int) (he : e.s < e.e) (hes : pyStrip e.l = e.l) :
+    ∃ acc', acc.insertEntry e .merge = .ok acc' ∧ acc'.WF ∧ acc'.name = acc.name ∧
       acc'.lo = min acc.lo e.s ∧ acc'.hi = max acc.hi e.e ∧
       (∀ x, covers acc'.es x ↔ covers acc.es x ∨ (e.s ≤ x ∧ x < e.e)) ∧
       (∀ y ∈ acc.es, ∃ z ∈ acc'.es, z.s ≤ y.s ∧ y.e ≤ z.e) ∧ (∃ z ∈ acc'.es, z.s ≤ e.s ∧ e.e ≤ z.e) := by
-  have hn := noclose_of_sep T hT acc.es hTa
   by_cases hcol : C11.colliding acc e = []
   · have hfree : ∀ iv ∈ acc.es, iv.e ≤ e.s ∨ e.e ≤ iv.s := by
       intro iv hiv
       have := List.filter_eq_nil_iff.1 hcol iv hiv
       simp [ov] at this; omega
     obtain ⟨acc', e1, w, n, hm, lo, hi⟩ := C11.insert_nocollision acc hacc e he hes .merge hfree
-    refine ⟨acc', e1, w, ?_, n, lo, hi, ?_, ?_, ?_⟩
-    · intro y hy
-      rcases (hm y).1 hy with h | h
-      · exact hTa y h
-      · subst h; exact heT
+    refine ⟨acc', e1, w, n, lo, hi, ?_, ?_, ?_⟩
     · intro x
       simp only [covers]
       constructor
@@ -342,29 +302,14 @@ theorem union_step (T : List Int) (hT : SepTimes T) (acc : ITier Int) (hacc : ac
     · intro y hy; exact ⟨y, (hm y).2 (Or.inl hy), by omega, by omega⟩
     · exact ⟨e, (hm e).2 (Or.inr rfl), by omega, by omega⟩
   · obtain ⟨hMs, hMe, _, acc', e1, w, n, hm, lo, hi⟩ :=
-      C11.insert_merge acc hacc hn e he hes hcol (C11.merged_label_stripped acc hacc e hes)
+      C11.insert_merge acc hacc e he hes hcol (C11.merged_label_stripped acc hacc e hes)
     have hMin := hullMin_le ((C11.colliding acc e).map (·.s)) e.s
     have hMax := hullMax_ge ((C11.colliding acc e).map (·.e)) e.e
     have hcolmem : ∀ c ∈ C11.colliding acc e, c ∈ acc.es ∧ c.s < e.e ∧ e.s < c.e := by
       intro c hc
       have := List.mem_filter.1 hc
       exact ⟨this.1, by simpa [ov] using this.2⟩
-    refine ⟨acc', e1, w, ?_, n, lo, hi, ?_, ?_, ?_⟩
-    · intro y hy
-      rcases (hm y).1 hy with h | h
-      · exact hTa y h.1
-      · subst h
-        constructor
-        · rw [hMs]
-          rcases foldl_min_mem ((C11.colliding acc e).map (·.s)) e.s with h | h
-          · unfold hullMin; rw [h]; exact heT.1
-          · obtain ⟨c, hc, hce⟩ := List.mem_map.1 h
-            unfold hullMin; rw [← hce]; exact (hTa c (hcolmem c hc).1).1
-        · rw [hMe]
-          rcases foldl_max_mem ((C11.colliding acc e).map (·.e)) e.e with h | h
-          · unfold hullMax; rw [h]; exact heT.2
-          · obtain ⟨c, hc, hce⟩ := List.mem_map.1 h
-            unfold hullMax; rw [← hce]; exact (hTa c (hcolmem c hc).1).2
+    refine ⟨acc', e1, w, n, lo, hi, ?_, ?_, ?_⟩
     · intro x
       simp only [covers]
       constructor
@@ -407,9 +352,8 @@ theorem union_step (T : List Int) (hT : SepTimes T) (acc : ITier Int) (hacc : ac
       · exact ⟨y, (hm y).2 (Or.inl ⟨hy, hyc⟩), by omega, by omega⟩
     · exact ⟨C11.merged acc e, (hm _).2 (Or.inr rfl), by rw [hMs]; omega, by rw [hMe]; omega⟩
 
-theorem union_fold (T : List Int) (hT : SepTimes T) (bs : List (Iv Int))
-    (hbs : ∀ b ∈ bs, b.s < b.e ∧ pyStrip b.l = b.l ∧ b.s ∈ T ∧ b.e ∈ T)
-    (acc : ITier Int) (hacc : acc.WF) (hTa : TimesIn T acc.es) :
+theorem union_fold (bs : List (Iv Int)) (hbs : ∀ b ∈ bs, b.s < b.e ∧ pyStrip b.l = b.l)
+    (acc : ITier Int) (hacc : acc.WF) :
     ∃ R, bs.foldlM (fun acc e => acc.insertEntry e .merge) acc = .ok R ∧ R.WF ∧ R.name = acc.name ∧
       R.lo ≤ acc.lo ∧ acc.hi ≤ R.hi ∧
       (∀ x, covers R.es x ↔ covers acc.es x ∨ covers bs x) ∧
@@ -419,9 +363,9 @@ theorem union_fold (T : List Int) (hT : SepTimes T) (bs : List (Iv Int))
     exact ⟨acc, rfl, hacc, rfl, by omega, by omega, fun x => by simp [covers],
       fun y hy => ⟨y, hy, by omega, by omega⟩, fun y hy => by simp at hy⟩
   | cons b bs ih =>
-    obtain ⟨b1, b2, b3, b4⟩ := hbs b (by simp)
-    obtain ⟨acc', e1, w, tT, n, lo, hi, hc, hk1, hk2⟩ := union_step T hT acc hacc hTa b b1 b2 ⟨b3, b4⟩
-    obtain ⟨R, e2, wR, nR, loR, hiR, hcR, hkR1, hkR2⟩ := ih (fun c hc' => hbs c (List.mem_cons_of_mem _ hc')) acc' w tT
+    obtain ⟨b1, b2⟩ := hbs b (by simp)
+    obtain ⟨acc', e1, w, n, lo, hi, hc, hk1, hk2⟩ := union_step acc hacc b b1 b2
+    obtain ⟨R, e2, wR, nR, loR, hiR, hcR, hkR1, hkR2⟩ := ih (fun c hc' => hbs c (List.mem_cons_of_mem _ hc')) acc' w
     refine ⟨R, ?_, wR, by rw [nR, n], by omega, by omega, ?_, ?_, ?_⟩
     · simp only [List.foldlM_cons, e1, bind, Except.bind]; exact e2
     · intro x
@@ -449,14 +393,13 @@ theorem union_fold (T : List Int) (hT : SepTimes T) (bs : List (Iv Int))
 
 /-- **union**: labelled exactly where either operand is (nothing invented, nothing lost); every input entry lies
 inside one output entry, so overlapping inputs are fused into one entry -/
-theorem union_spec (A B : ITier Int) (hA : A.WF) (hB : B.WF) (T : List Int) (hT : SepTimes T)
-    (hTA : TimesIn T A.es) (hTB : TimesIn T B.es) :
+theorem union_spec (A B : ITier Int) (hA : A.WF) (hB : B.WF) :
     ∃ R, A.union B = .ok R ∧ R.WF ∧ R.name = A.name ∧
       (∀ x, covers R.es x ↔ covers A.es x ∨ covers B.es x) ∧
       (∀ a ∈ A.es, ∀ b ∈ B.es, max a.s b.s < min a.e b.e →
         ∃ z ∈ R.es, z.s ≤ a.s ∧ a.e ≤ z.e ∧ z.s ≤ b.s ∧ b.e ≤ z.e) := by
-  obtain ⟨R, e, w, n, _, _, hc, hk1, hk2⟩ := union_fold T hT B.es
-    (fun b hb => ⟨hB.pos b hb, hB.stripped b hb, (hTB b hb).1, (hTB b hb).2⟩) A hA hTA
+  obtain ⟨R, e, w, n, _, _, hc, hk1, hk2⟩ := union_fold B.es
+    (fun b hb => ⟨hB.pos b hb, hB.stripped b hb⟩) A hA
   refine ⟨{ R with es := sortIvs R.es }, ?_, ?_, n, ?_, ?_⟩
   · unfold ITier.union
     rw [new_of_wf A hA]
@@ -477,10 +420,9 @@ theorem union_spec (A B : ITier Int) (hA : A.WF) (hB : B.WF) (T : List Int) (hT 
     exact ⟨z1, hz1, p1, p2, q1, q2⟩
 
 /-- no set operation invents labelled time -/
-theorem union_no_invention (A B R : ITier Int) (hA : A.WF) (hB : B.WF) (T : List Int) (hT : SepTimes T)
-    (hTA : TimesIn T A.es) (hTB : TimesIn T B.es) (h : A.union B = .ok R) (x : Int) :
+theorem union_no_invention (A B R : ITier Int) (hA : A.WF) (hB : B.WF) (h : A.union B = .ok R) (x : Int) :
     covers R.es x → covers A.es x ∨ covers B.es x := by
-  obtain ⟨R', e, _, _, hc, _⟩ := union_spec A B hA hB T hT hTA hTB
+  obtain ⟨R', e, _, _, hc, _⟩ := union_spec A B hA hB
   rw [h] at e; cases e
   exact (hc x).1
 
@@ -623,20 +565,31 @@ theorem mergeLabels_spec (A B : ITier Int) (hA : A.WF) (hB : B.WF) :
 /-! ## non-vacuity -/
 def exA : ITier Int := ⟨"A", [⟨0, 20, "a1"⟩, ⟨50, 90, "a2"⟩], 0, 100⟩
 def exB : ITier Int := ⟨"B", [⟨10, 60, "b1"⟩, ⟨70, 80, "b2"⟩], 0, 100⟩
-def exT : List Int := [0, 10, 20, 50, 60, 70, 80, 90]
 
 theorem exA_wf : exA.WF := by
   refine ⟨?_, ?_, ?_, ?_, ?_, ?_⟩ <;> simp [exA, Pos, Disj, Stripped] <;> decide
 theorem exB_wf : exB.WF := by
   refine ⟨?_, ?_, ?_, ?_, ?_, ?_⟩ <;> simp [exB, Pos, Disj, Stripped] <;> decide
-theorem exT_sep : SepTimes exT := by
-  intro x hx y hy hxy
-  simp only [exT, List.mem_cons, List.mem_nil_iff, or_false] at hx hy
-  rcases hx with rfl | rfl | rfl | rfl | rfl | rfl | rfl | rfl <;>
-    rcases hy with rfl | rfl | rfl | rfl | rfl | rfl | rfl | rfl <;>
-    first | rfl | (exfalso; revert hxy; simp [Tm.close9])
-theorem exTimes : TimesIn exT exA.es ∧ TimesIn exT exB.es := by
-  constructor <;> intro iv hiv <;> simp [exA, exB] at hiv <;> rcases hiv with rfl | rfl <;> simp [exT]
+
+/-- two well-formed tiers whose boundary times are NOT separated under the 1e-9 tolerance (two distinct entries of
+`exC` are equal under the tolerant `Interval.__eq__`; such operands were excluded by the former hypothesis
+`SepTimes`): the theorems apply to them -/
+def exC : ITier Int :=
+  ⟨"C", [⟨10000000000, 10000000005, "x"⟩, ⟨10000000005, 10000000010, "x"⟩], 0, 20000000000⟩
+def exD : ITier Int := ⟨"D", [⟨10000000005, 10000000010, "d"⟩], 0, 20000000000⟩
+theorem exC_wf : exC.WF := by
+  refine ⟨?_, ?_, ?_, ?_, ?_, ?_⟩ <;> simp [exC, Pos, Disj, Stripped] <;> decide
+theorem exD_wf : exD.WF := by
+  refine ⟨?_, ?_, ?_, ?_, ?_, ?_⟩ <;> simp [exD, Pos, Disj, Stripped] <;> decide
+theorem exC_close : ¬ NoClose exC.es := by
+  intro h
+  exact absurd (h ⟨10000000000, 10000000005, "x"⟩ (by simp [exC]) ⟨10000000005, 10000000010, "x"⟩
+    (by simp [exC]) (by decide)) (by decide)
+example := difference_spec exC exD exC_wf exD_wf
+example := union_spec exC exD exC_wf exD_wf
+#guard (exC.difference exD).toOption.map (·.es) == some [⟨10000000000, 10000000005, "x"⟩]
+#guard (exC.union exD).toOption.map (·.es) ==
+  some [⟨10000000000, 10000000005, "x"⟩, ⟨10000000005, 10000000010, "d-x"⟩]
 
 #guard (exA.union exB).toOption.map (·.es) == some [⟨0, 90, "a1-b1-a2-b2"⟩]
 #guard (exA.difference exB).toOption.map (·.es) == some [⟨0, 10, "a1"⟩, ⟨60, 70, "a2"⟩, ⟨80, 90, "a2"⟩]
